@@ -1,8 +1,10 @@
 mod common;
 mod sched;
 mod world;
+mod c01;
 mod c14;
 mod c15;
+mod c17;
 mod c20;
 mod eval;
 mod r#gen;
@@ -32,9 +34,12 @@ fn main() {
     .map(|v| v as u64)
     .unwrap_or(1);
   let code = match id {
+    "C01" => c01::run(tier, seed),
     "C02" => c15::run_c02(tier, seed),
     "C14" => c14::run(tier, seed),
     "C15" => c15::run_c15(tier, seed),
+    "C17" => c17::run_c17(tier, seed),
+    "C18" => c17::run_c18(tier, seed),
     "C20" => c20::run(tier, seed, args.iter().any(|a| a == "--miri")),
     _ => {
       eprintln!("unknown property {}", id);
